@@ -285,7 +285,7 @@ def check(G, conf, nodes_all, P, t, known_nodes, z):
 
 def get_node_snapshots(G, conf, nodes_all, P, known_nodes):
     res = []
-    ids = G.temporal_snapshots_ids()
+    ids = sorted(set(tt for (_, _, tt) in P))        # the inhabited instants, not the id list the graph reports
     for n in known_nodes:
         want = [t for t in ids if any((u == n or v == n) and tt == t for (u, v, tt) in P)]
         try:
